@@ -1,2 +1,5 @@
+/- C14 registration module: the sequential id generator (Properties/C14), ids of live messages in the session model
+(Properties/C01) and the generator under every thread schedule (Properties/C07Mid). -/
 import PahoProofs.Properties.C14
 import PahoProofs.Properties.C01
+import PahoProofs.Properties.C07Mid
